@@ -32,6 +32,15 @@ def zero_hp(lay, P):
 def construct(m, cls, mid, pbf, kwargs):
     from pyubx2 import UBXMessage
 
+    if len(kwargs) > 1:
+        # keyword order is the caller's business: present the values in a (deterministically) shuffled order
+        import random
+
+        items = list(kwargs.items())
+        random.Random(len(items) * 131 + cls * 7 + mid).shuffle(items)
+        kwargs = dict(items)
+    if (cls + mid + len(kwargs)) % 2:
+        pbf = bool(pbf)
     try:
         msg = UBXMessage(bytes([cls]), bytes([mid]), m, parsebitfield=pbf, **kwargs)
     except Exception as ex:  # noqa: BLE001
@@ -187,14 +196,24 @@ def obs_c04(case):
     forms = [(bytes([cls]), bytes([mid])), (cls, mid)]
     if case.get("names"):
         forms.append(tuple(case["names"]))
+    if case["route"] == "lenient":
+        forms = forms[:1]
     sers = []
     for a, b in forms:
         try:
-            msg = UBXMessage(a, b, m, **kw)
-            s = msg.serialize()
-            sers.append((msg, list(s) if isinstance(s, (bytes, bytearray)) else BAD))
+            if case["route"] == "lenient":
+                # a message obtained by a lenient (VALNONE) parse of a frame whose checksum / payload byte was damaged
+                msg = UBXReader.parse(bytes.fromhex(case["f"]), msgmode=m, validate=0)
+            else:
+                msg = UBXMessage(a, b, m, **kw)
         except Exception as ex:  # noqa: BLE001
             sers.append((None, "exc:" + classify_build_exc(ex)))
+            continue
+        try:  # the message exists: from here on everything is judged (serialize() must return a frame)
+            s = msg.serialize()
+            sers.append((msg, list(s) if isinstance(s, (bytes, bytearray)) else BAD))
+        except Exception:  # noqa: BLE001
+            sers.append((msg, BAD))
     msg0, s0 = sers[0]
     if msg0 is None:
         ev["built"] = s0
